@@ -10,6 +10,7 @@ from harness.props import c01
 
 OBLIGATIONS = [
     "PgmVerif.C03_argmax_is_max", "PgmVerif.C03_argmax_decode", "PgmVerif.C03_map_is_maximiser",
+    "PgmVerif.C03_max_elimination_any_order",
 ]
 PARTIAL = ["numpy argmax tie-breaking is free by design: the check is by value of the exact posterior at the returned assignment",
            "row-wise predict is compared differentially (pandas merge logic is not modelled)"]
@@ -19,10 +20,12 @@ ASSUMPTIONS = ["ties: any maximiser is accepted; the returned assignment's exact
 BUDGET_QUICK = 75
 LEVEL_TEXT = ("Kernel-checked: argmaxIdx returns the index of a maximal table entry and `assignment` decodes a flat index into an in-range "
               "state of exactly the scope variables (via unravel_ravel), so MAP on the VE result (proved equal to the exact posterior in C01) "
-              "is a maximiser of the exact posterior. The implementation (VE all orders, BP, predict, Markov networks) is tied by "
+              "is a maximiser of the exact posterior; max-product elimination itself (the model of map_query / max_marginal: multiply the "
+              "factors mentioning a variable, maximise it out) is proved exact for EVERY elimination order on non-negative factors "
+              "(C03_max_elimination_any_order). The implementation (VE all orders, BP, predict, Markov networks) is tied by "
               "differential correspondence: the returned assignment's exact posterior equals the model's maximum.")
 LEVEL_NOTE = "Trusted: Lean kernel + standard axioms; model; harness; tie-breaking is free."
-TECHNIQUE = "Lean 4 proof (argmax decoding + C01) + differential correspondence with map_query / predict"
+TECHNIQUE = "Lean 4 proof (max-product elimination in any order, argmax decoding, C01) + differential correspondence with map_query / predict"
 
 
 def check_assignment(res, case, m, names, card, labels, q):
